@@ -764,6 +764,10 @@ def _canon(case: dict, lines: list[str]) -> list[str]:
         if _interrupted(case['cfg'], op):
             head, _, tail = l.partition(' | ')
             head = ' '.join(p if not p.startswith('frames=') else 'frames=*' for p in head.split(' '))
+            if op[0] == 'loginat' and op[2] == 'reset':
+                # when the last write of the burst belongs to a tracking task, login() has returned and its reader
+                # meets the reset before the suspended write does: the same unrequested loss under another name
+                head = head.replace('closed=read_error ', 'closed=write_error ')
             l = head + ' | ' + tail
         out.append(l)
     return out
